@@ -20,6 +20,7 @@ AllCfgs == {[on |-> TRUE, rate |-> r, b128 |-> b, rid |-> d] : r \in {"zero", "o
            \cup {[on |-> FALSE, rate |-> "zero", b128 |-> FALSE, rid |-> d] : d \in B}
 SlimCfgs == {[on |-> TRUE, rate |-> "half", b128 |-> TRUE, rid |-> TRUE], [on |-> TRUE, rate |-> "one", b128 |-> FALSE, rid |-> FALSE],
              [on |-> FALSE, rate |-> "zero", b128 |-> FALSE, rid |-> TRUE]}
+DevCfgs == {[on |-> TRUE, rate |-> r, b128 |-> TRUE, rid |-> FALSE] : r \in {"zero", "one"}}
 OneCfg == {[on |-> TRUE, rate |-> "one", b128 |-> TRUE, rid |-> TRUE]}
 AllRoutes == {"fwd", "noroute", "redirect", "denied"}
 TwoRoutes == {"fwd", "noroute"}
